@@ -500,6 +500,9 @@ def fmtTraceEntry (t : TraceEntry) : String :=
     | .reply r => ("reply", "-", "-", replyExtra r)
     | .sudo _ => ("sudo", "-", "-", "-")
     | .migrate _ => ("migrate", "-", "-", "-")
+  -- the chain id the contract is told is noted when it is not the default one
+  let notes := if t.env.block.chainId == "cosmos-testnet-14002" then notes
+    else "cid=" ++ penc t.env.block.chainId ++ (if notes == "" then "" else ";" ++ notes)
   " ".intercalate [t.callee, name, tag, sender, funds, toString t.env.block.height, toString t.env.block.time, extra ++ "#" ++ h]
     ++ "|" ++ notes
 
@@ -720,6 +723,10 @@ def stepWasm (st : WState) (line : String) : WState × String :=
       match (if a 1 == "same" then some app.block.height else (a 1).toNat?), (a 2).toNat? with
       | some h, some t => runQueue st { app with block := { app.block with height := h, time := t } }
       | _, _ => (st, "bad-op")
+    | "block-chain" =>
+      match pdec (a 1) with
+      | some cid => runQueue st { app with block := { app.block with chainId := cid } }
+      | none => (st, "bad-op")
     | "next-block" =>
       runQueue st { app with block := { app.block with height := app.block.height + 1, time := app.block.time + 5000000000 } }
     | "stk-setup" =>
